@@ -436,7 +436,13 @@ func genHistory(seed uint64, spec *GenesisSpec, g *genOpts) (*History, *HistResu
 					if tr.Tags["tx.commission_conversion"] == "pool" {
 						rt = 1
 					}
-					res.C27Cases = append(res.C27Cases, [2][]*big.Int{in, L(bi(tr.Tags["tx.commission_amount"]), Z(rt))})
+					// the quotes are recomputed here on a copy of the pre-state; the node's own computation can differ from
+					// them by a unit or two of rounding (and more for transactions that trade through the same pool themselves:
+					// C15), so the model is asked for the ROUTE, and only when the two quotes are clearly apart
+					clear := resQ == nil || poolQ == nil || new(big.Int).Abs(new(big.Int).Sub(resQ, poolQ)).Cmp(Z(10)) > 0
+					if clear {
+						res.C27Cases = append(res.C27Cases, [2][]*big.Int{in, L(Z(-999), Z(rt))})
+					}
 				}
 				if resQ == nil || poolQ == nil {
 					return
@@ -446,7 +452,11 @@ func genHistory(seed uint64, spec *GenesisSpec, g *genOpts) (*History, *HistResu
 				if resQ.Cmp(poolQ) < 0 {
 					want, route = resQ, "bancor"
 				}
-				if tr.Tags["tx.commission_amount"] != want.String() || tr.Tags["tx.commission_conversion"] != route {
+				charged := bi(tr.Tags["tx.commission_amount"])
+				apart := new(big.Int).Abs(new(big.Int).Sub(resQ, poolQ)).Cmp(Z(10)) > 0
+				selfTrade := strings.Contains(gens[i].Kind, "pool") || strings.Contains(gens[i].Kind, "coin") || strings.Contains(gens[i].Kind, "order") || strings.Contains(gens[i].Kind, "liq")
+				near := new(big.Int).Abs(new(big.Int).Sub(charged, want)).Cmp(Z(10)) <= 0
+				if apart && (tr.Tags["tx.commission_conversion"] != route || (!near && !selfTrade)) {
 					res.C27 = append(res.C27, MonitorFailure{What: fmt.Sprintf("C27: %s transaction at height %d pays %s base coin in coin %d, which has a reserve (cost %s) and a pool (cost %s): charged %s by route %q, the cheaper route is %q with %s raw=%x",
 						gens[i].Kind, n.Height+1, base, gens[i].Gas, resQ, poolQ, tr.Tags["tx.commission_amount"], tr.Tags["tx.commission_conversion"], route, want, raw), Key: "c27-route-not-cheaper"})
 				}
